@@ -196,6 +196,8 @@ class ZoneAnalysis:
             if a[0] == b[0]:
                 return (Z, a[1] - b[1])
             return None
+        if k == "call" and id(n) in getattr(self, "_xchg", {}):
+            return (self._xchg[id(n)], 0)  # std::exchange(x, v): the value x had before (see transfer)
         if k == "call":
             g = self.getters.get(short(n.get("name") or ""))
             if g is not None and not [a for a in n.get("args", []) if not (isinstance(a, dict) and a.get("k") == "defarg")]:
@@ -284,6 +286,21 @@ class ZoneAnalysis:
         every interesting node *before* its effect (subscripts, writes, ++/--)."""
         if z.bottom:
             return z
+        # std::exchange(x, v) yields the old x and stores v: the old value is kept under a temporary name, then x := v
+        if isinstance(e.get("expr"), dict):
+            for y in walk(e["expr"], into_sc=False):
+                if y.get("k") == "call" and (y.get("name") or "") == "std::exchange" and len(y.get("args", [])) == 2:
+                    xv = self.varname(ir.unwrap(y["args"][0]))
+                    if xv:
+                        if not hasattr(self, "_xchg"):
+                            self._xchg = {}
+                        tmp = "$old:%s@%s" % (xv, y.get("ln"))
+                        self._xchg[id(y)] = tmp
+                        z.assign(tmp, (xv, 0))
+                        z.assign(xv, self.lin(y["args"][1]))
+                        if self.unsigned(xv):
+                            z.add(Z, xv, 0)
+                        z.close()
         if e["kind"] == "init":
             v = self.varname({"k": "member", "field": e.get("field"), "base": {"k": "this"}}) if e.get("field") else None
             if record:
